@@ -44,6 +44,52 @@ inductive Aspect where
 
 def usesRedact (q : String) : Bool := (q.splitOn "redact").length > 1
 
+/-! ### outside the deterministic domain: two multi-match operands compared with each other
+
+ojg enumerates the members of an object in Go's map order, so a wildcard or a recursive descent
+over an object yields its matches in an order that changes from run to run.  Against a scalar the
+comparison is an any-match and the order does not matter; two such lists compared with each other
+are compared element by element (`reflect.DeepEqual`, pairwise loops), and the truth value is not a
+function of query and record.  Such queries are not judged. -/
+mutual
+  partial def multiPri : Primary → Bool
+    | .call ident _ sel jp _ =>
+      (match jp with
+       | some p => p.any (fun f => f == Frag.wildcard || f == Frag.descent)
+       | none => (ident.splitOn "..").length > 1 || (ident.splitOn "*").length > 1) ||
+      (match sel with
+       | .mk _ _ rd _ _ => rd.isSome
+       | .none => false)
+    | .sub e => riskExpr e   -- conservative
+    | _ => false
+  partial def multiUn : Unary → Bool
+    | .op _ u => multiUn u
+    | .pri p => multiPri p
+  partial def headCmp : Comparison → Unary
+    | .one u => u
+    | .bin u _ _ => u
+  partial def riskCmp : Comparison → Bool
+    | .one u => riskUn u
+    | .bin u _ next => (multiUn u && multiUn (headCmp next)) || riskUn u || riskCmp next
+  partial def riskUn : Unary → Bool
+    | .op _ u => riskUn u
+    | .pri (.sub e) => riskExpr e
+    | .pri (.call _ _ (.mk _ _ _ true e) _ _) => riskExpr e
+    | .pri _ => false
+  partial def headEq : Equality → Comparison
+    | .one c => c
+    | .bin c _ _ => c
+  partial def riskEq : Equality → Bool
+    | .one c => riskCmp c
+    | .bin c _ next => (multiUn (headCmp c) && multiUn (headCmp (headEq next))) || riskCmp c || riskEq next
+  partial def riskLog : Logical → Bool
+    | .one e => riskEq e
+    | .bin e _ next => riskEq e || riskLog next
+  partial def riskExpr : Expr → Bool
+    | .empty => false
+    | .mk l => riskLog l
+end
+
 def judgeEval (aspect : Aspect) (payload impl : String) : Verdict :=
   match (Sx.parse payload).bind (fun x => match x with
       | .list (a :: b :: c :: _) => some (a, b, c)
@@ -51,7 +97,8 @@ def judgeEval (aspect : Aspect) (payload impl : String) : Verdict :=
   | some (qSx, astSx, recSx) =>
     match exprOfSx astSx, Json.ofSx recSx with
     | some ast, some record =>
-      let (m, unsup) := observe ast record
+      let (m, unsup0) := observe ast record
+      let unsup := unsup0 || riskExpr ast
       let implSx := Sx.parse impl
       let q := (strOfSx? qSx).getD ""
       let astok := fieldIs implSx "astok" ["true"]
@@ -62,7 +109,7 @@ def judgeEval (aspect : Aspect) (payload impl : String) : Verdict :=
         { corr := true, implSpec := true, modelSpec := true, nontrivial := false, cls := "generator-ast-mismatch", model := "-", spec := "-" }
       else
         let corr := unsup || m.toStr == impl
-        let specTruth := Spec.truth ast record
+        let specTruth := if riskExpr ast then none else Spec.truth ast record
         let specLimit := Spec.limitOf astSx
         let check (obs : Option Sx) : Bool :=
           match aspect with
